@@ -12,7 +12,7 @@ void harness(void) {
   struct url_aggregator u;
   u.base.is_valid = 1; u.base.has_opaque_path = nondet_bool();   /* canonical _Bool values (a wholly nondet struct may hold non-0/1 bytes) */
   __CPROVER_assume(AGG_SHAPE(&u) && u.base.is_valid);
-  sv_t input; input.n = nondet_size(); MAKE_SV(input);
+  ND_SV(input);
   struct url_aggregator old = u;
 #ifdef SETTER_VOID
   SETTER(&u, input);
